@@ -156,6 +156,10 @@ func Corpus(tier string, seed int64) []Inst {
 	ue := NStruct("UEq", F("A", B("int")), F("B", B("int")))
 	ue.UserEqual = true
 	add(Ptr(NStruct("HasUEq", F("U", Ptr(ue)), F("X", B("int")))))
+	// a component with its own Hash() int32 method (consistent with structural equality: it hashes its only field)
+	uh := NStruct("UHash", F("A", B("int")))
+	uh.UserHash = true
+	add(Ptr(NStruct("HasUHash", F("H", Ptr(uh)), F("V", uh), F("X", B("int")))))
 	// comparable named types whose own Equal (value receiver) differs from ==: as a value field, behind a
 	// pointer, as slice/array/map elements and at top level
 	uv := NStruct("UEqV", F("A", B("int")), F("B", B("int")))
